@@ -57,10 +57,7 @@ class get_segment_header:
     ghost = {"$o": "self.header.e_phoff + n * self.header.e_phentsize"}
     ensures = ["result == P('Elf_Phdr', self.stream.B, $o)"]
     raises = {"ELFError": "(self.header.e_phoff > 0 and self.header.e_phentsize < SZ('Elf_Phdr', self.elfclass))"
-                          " or ($o < 2**63 and $o + SZ('Elf_Phdr', self.elfclass) > self.stream_len)",
-              # CPython streams cannot seek beyond ssize_t: a 64-bit table offset above 2^63 is not an ELF error
-              "OverflowError": "not (self.header.e_phoff > 0 and self.header.e_phentsize < SZ('Elf_Phdr', self.elfclass))"
-                               " and $o >= 2**63"}
+                          " or ($o + SZ('Elf_Phdr', self.elfclass) > self.stream_len)"}
 
 
 @contract("elftools/elf/elffile.py", "ELFFile.num_sections", props=["C01", "C19"])
@@ -79,10 +76,11 @@ class num_sections:
 class get_shstrndx:
     """gABI: e_shstrndx = SHN_XINDEX (0xffff) means the index is sh_link of header 0"""
     params = dict(self=ELFFileT())
-    requires = INV + ["self.header.e_shoff <= self.stream_len"]
+    requires = INV
     returns = Int
     ensures = ["result == (self.header.e_shstrndx if self.header.e_shstrndx != 0xffff"
-               " else P('Elf_Shdr', self.stream.B, self.header.e_shoff).sh_link)"]
+               " else P('Elf_Shdr', self.stream.B, self.header.e_shoff).sh_link)",
+               "self.header.e_shstrndx != 0xffff or self.header.e_shoff <= self.stream_len"]   # an unreachable header 0 is an ELFError
     may_raise = ["ELFError"]
 from specs.elf import kind, section_kind, segment_kind, secname, nsec, nseg
 
